@@ -33,8 +33,15 @@ namespace ST { namespace verif_controls
         return strtok(text, " ");
     }
 
+    // R04.8: hands out a reference to an object it was only given for reading (the caller gets an alias, not a value)
+    inline const ST::string &alias_of(const ST::string &s)
+    {
+        return s;
+    }
+
     void use_all(const ST::string &s, char *t)
     {
+        (void)alias_of(s);
         (void)static_scratch(1);
         count_call();
         upper_in_place(s);
